@@ -55,6 +55,8 @@ func Families(quick bool) []*Schema {
 	f3b.Root(structT("LP2", "listpairs", fld("alpha", "Int", false, false), fld("beta", "String", true, true)))
 	lp := fld("x", "Int", true, false) // (the listpairs strategy has no renames)
 	f3b.Root(structT("LP3", "listpairs", lp, fld("y", "String", false, true), fld("z", "Bool", true, false)))
+	// a kinded union whose list-kinded member is a listpairs struct
+	f3b.Root(unionT("UKLP", "kinded", nil, "LP2", "Int", "String"))
 	out = append(out, f3b)
 
 	// F5: unions
@@ -71,8 +73,15 @@ func Families(quick bool) []*Schema {
 	f5.Root(sp)
 	f5.Root(unionT("USPn", "stringprefix", map[string]string{"String": "s-", "SJ": "j-"}, "String", "SJ"))
 	f5.Root(structT("HasU", "map", fld("u", "UK", false, false), fld("k", "UKind", true, true)))
+	// kinded unions whose members are structs represented as a list (tuple) and as a string (stringjoin)
+	f5.Add(structT("PtT", "tuple", fld("x", "Int", false, false), fld("y", "Int", true, false)))
+	f5.Root(unionT("UKind3", "kinded", nil, "PtT", "SJ", "Bool", "MapSI"))
 	f5.Root(&Type{Name: "ListU", Kind: TList, ValType: "UKind"})
 	f5.Root(&Type{Name: "ListNUK", Kind: TList, ValType: "UK", ValNullable: true})
+	// containers of structs whose fields have a string representation but a recursive type-level form
+	f5.Add(structT("HasSJ", "map", fld("k", "SJ", false, false), fld("u", "USP", true, false), fld("n", "Int", false, false)))
+	f5.Root(&Type{Name: "ListHasSJ", Kind: TList, ValType: "HasSJ"})
+	f5.Root(&Type{Name: "MapHasSJ", Kind: TMap, KeyType: "String", ValType: "HasSJ"})
 	out = append(out, f5)
 
 	// F6: enums (reflection engine only)
